@@ -2335,7 +2335,18 @@ def _math(I, name):
                     acc = binop(I, ast.Add(), acc, e)
                 return acc
             return to_expr(x)
-        return npsum
+
+        def npsum_out(x, axis=None, out=None, **kw):
+            if kw:
+                raise AnalysisError(f"numpy.sum keyword {sorted(kw)[0]} is not modelled")
+            r = npsum(x, axis)
+            if out is None:
+                return r
+            if not isinstance(out, Vec) or not isinstance(r, Vec) or len(out.items) != len(r.items):
+                raise AnalysisError("numpy.sum(out=) on values that are not arrays of one length")
+            out.items[:] = r.items          # the result is written into the array given, which is what is returned
+            return out
+        return npsum_out
     def _shape(x):
         if isinstance(x, Vec):
             inner = _shape(x.items[0]) if x.items else ()
